@@ -228,3 +228,28 @@ void h_rep0_pipe_fini(void) { VP_HAVOC_GHOSTS(); VP_NEW(rep0_pipe, p); rep0_pipe
 void h_rep0_pipe_stop(void) { VP_HAVOC_GHOSTS(); VP_NEW(rep0_pipe, p); rep0_pipe_stop(p); VP_CANARY(); }
 void h_rep0_pipe_init(void) { nni_pipe *pipe; void *sk; VP_HAVOC_GHOSTS(); VP_NEW(rep0_pipe, p); (void) rep0_pipe_init(p, pipe, sk); VP_CANARY(); }
 void h_rep0_ctx_init(void) { void *sk; VP_HAVOC_GHOSTS(); VP_NEW(rep0_ctx, c); rep0_ctx_init(c, sk); VP_CANARY(); }
+
+#ifdef XQ_TWICE
+/* two sends in a row on the same context, no receive in between (the real function, twice) */
+static void vp_rep0_send_twice(void *arg, nni_aio *aio, nni_aio *aio2)
+{
+	rep0_ctx_send(arg, aio);
+	rep0_ctx_send(arg, aio2);
+}
+void h_rep0_send_twice(void)
+{
+	nni_aio *aio, *aio2;
+	VP_HAVOC_GHOSTS();
+	VP_MK_CTX();
+	ctx->saio = NULL; ctx->sqnode.ln_next = NULL; ctx->sqnode.ln_prev = NULL;
+#if REP_HAS == 1
+	VP_NEW(rep0_pipe, tp); tp->rep = s; g_rr.idm_val = tp; g_rr.idm_has = true;
+	vp_list_init(&tp->sendq, offsetof(rep0_ctx, sqnode));
+#if REP_SQ == 1
+	VP_NEW(rep0_ctx, c2); c2->sock = s; g_c2 = c2; vp_list_add(&tp->sendq, &c2->sqnode);
+#endif
+#endif
+	vp_rep0_send_twice(ctx, aio, aio2);
+	VP_CANARY();
+}
+#endif
